@@ -163,6 +163,7 @@ func ruleRSBase(p *Prog, r *Reporter) {
 			}
 		}
 	}
+	rsBaseConstructor(p, r, impl, base, ms)
 	// (b) request-time uses of the base fields: only as the receiver of Clone()
 	for _, m := range ms {
 		for f, loads := range fieldLoadsVia(m, m.Params[0]) {
@@ -186,6 +187,47 @@ func ruleRSBase(p *Prog, r *Reporter) {
 				}
 				r.Check(okUse, p.instrPos(ld), p.FuncName(m), "use "+impl.Obj().Name()+"."+f,
 					"base state only cloned", "base state is used other than through Clone() ("+why+"): it may be mutated or aliased by request-time code")
+			}
+		}
+	}
+}
+
+// rsBaseConstructor is clause (c) of RS-BASE: outside the authorizer's methods (constructor, option
+// closures, helpers) the base fields are filled once and then left alone - no callee that writes
+// through its receiver is applied to them. A base table extended with the token's symbols, or a base
+// world preloaded with its facts, makes "a new authorizer" depend on the token it was made for: Reset
+// then restores that content, and a snapshot (which is rebuilt on the base table) is tied to one token.
+func rsBaseConstructor(p *Prog, r *Reporter, impl *types.Named, base map[string]bool, ms []*ssa.Function) {
+	isMethod := map[*ssa.Function]bool{}
+	for _, m := range ms {
+		isMethod[m] = true
+	}
+	o := p.own()
+	for _, fn := range p.funcsIn("biscuit") {
+		if isMethod[fn] || (fn.Parent() != nil && isOptionClosure(p, fn, impl)) {
+			continue // methods: clause (b); construction-time options configure the base (limits) by design
+		}
+		for _, b := range fn.Blocks {
+			for _, in := range b.Instrs {
+				ld, ok := in.(*ssa.UnOp)
+				if !ok || ld.Op != token.MUL {
+					continue
+				}
+				fa, isFA := ld.X.(*ssa.FieldAddr)
+				if !isFA || !types.Identical(deref(fa.X.Type()), impl) || !base[fieldName(fa)] {
+					continue
+				}
+				for _, u := range *ld.Referrers() {
+					c, isCall := u.(ssa.CallInstruction)
+					if !isCall || len(c.Common().Args) == 0 || c.Common().Args[0] != ssa.Value(ld) {
+						continue
+					}
+					for _, callee := range p.CG().Callees(c) {
+						why, mut := o.mutates[callee][0]
+						r.Check(!mut, p.instrPos(c), p.FuncName(fn), "base "+impl.Obj().Name()+"."+fieldName(fa)+" passed to "+callee.Name(),
+							"the callee does not write the base state", "the base state of a new authorizer is modified after its allocation ("+calleeName(callee)+": "+why+"): what Reset restores and what a snapshot is rebuilt on then depends on the token or request the authorizer was created for")
+					}
+				}
 			}
 		}
 	}
